@@ -145,7 +145,7 @@ pub fn decode_op(u: &mut Unstructured, kind: Kind, uni: u32, dom: u8, leaks: boo
         },
         46 => Op::IterProg { which: ItKind::Drain, prog: program(u, 20)?, end: endhow(u)? },
         47 | 48 => Op::Extend { pairs: pairs(u, uni, dom, 48)?, hint: hint(u)? },
-        49 => Op::Append { pairs: pairs(u, uni, dom, 48)?, swap_roles: u.arbitrary()? },
+        49 => Op::Append { pairs: pairs(u, uni, dom, 48)?, swap_roles: u.arbitrary()?, mirror: u.int_in_range(0u8..=3)? == 0, cap: if u.arbitrary()? { u.arbitrary()? } else { 0 } },
         50 => Op::RebuildFromVec { extra: pairs(u, uni, dom, 16)? },
         51 => Op::RebuildFromIter { extra: pairs(u, uni, dom, 16)?, hint: hint(u)? },
         52 => Op::ConvertRound,
